@@ -3,6 +3,5 @@
 SPECIFICATION TSpec
 CONSTANT Strict = FALSE
 CONSTANT Deviations = {}
-INVARIANT NotStuck
 POSTCONDITION Accepted
 CHECK_DEADLOCK FALSE
